@@ -689,13 +689,11 @@ def _column_is_row_hash(w, evs, col, lp, k, F):
     return check_hash(col)
 
 
-_HELPER_SUMMARIES = {}
-
-
 def helper_hash_summary(F, callee):
     """For a helper kernel that returns a column: ('ok', key_param, seed_param, width_param) if EVERY return path returns
     fasthash64(<whole key param>, +/-<param> + c) % <param>; ('bad', why) if some path returns something else; None if the shape
     is not understood."""
+    _HELPER_SUMMARIES = F.__dict__.setdefault("_helper_summaries", {})
     if callee.key in _HELPER_SUMMARIES:
         return _HELPER_SUMMARIES[callee.key]
     out = None
@@ -832,6 +830,21 @@ def rule_cons(ctx, kernels=None):
                 res_b.append((okb, "buckets were filled by the query of this key on this path" if okb else
                               "bucket columns are not (provably) those of this key: no dominating query call or buckets rewritten since", fact_strs(e)))
             node = g[0].node
+            # completeness: when the store is skipped for a row, that row's cell is already >= new_count
+            newv = next((e.value.lin for e in g if isinstance(e.value, Num)), None)
+            res_c = []
+            loops_seen = {id(e.loops[-1]): e.loops[-1] for e in g if e.loops}
+            for le in [x for x in w.events if x.kind == "loopend" and id(x.loop) in loops_seen]:
+                evs = [x for x in on_path(w.events, le) if x.loops and x.loops[-1] is le.loop]
+                if any(x in g for x in evs):
+                    res_c.append((True, "cell raised to new_count", fact_strs(le)))
+                    continue
+                rd = [x for x in evs if x.kind == "read" and x.arr.name == table and len(x.idx) == 2 and x.idx[0].lin == Lin.term(le.loop.varterm)]
+                okc = newv is not None and any(w.P.prove_le0(newv - Lin.term(x.term), le.facts) for x in rd)
+                res_c.append((bool(okc), "row skipped only when its cell is already >= new_count" if okc else
+                              "a row of the key can be left below new_count: the key's estimate after the add is then smaller than old + v", fact_strs(le)))
+            if res_c:
+                agg(ctx, "cons", k, node, src(k, node), "after the update every cell of the key is >= new_count (so the new minimum is new_count)", res_c)
             agg(ctx, "cons", k, node, src(k, node), "at most one cell per row: index [row, buckets[row]] in one loop over range(depth)", res_i)
             agg(ctx, "cons", k, node, src(k, node), "every raised cell receives the same new_count", res_v)
             agg(ctx, "addr", k, node, src(k, node), "cells addressed are those of this key (fresh buckets from the dominating query)", res_b)
